@@ -144,6 +144,9 @@ def _work_rand(args):
                         Bi = np.diag(edges.astype(np.int64 if rng.random() < 0.5 else np.int32))
                         okp &= abs(float(rp.distance_to(rq, Bi)) - d) <= tol
                         okp &= abs(float(rp.distance_to(rq, np.array(Bi.tolist()))) - d) <= tol
+                    # the inverse flag given by position (third argument), as in distance_to(x, inverse_box, True)
+                    okp &= abs(float(rp.distance_to(rq, Ibuf, True)) - d) <= tol
+                    okp &= abs(float(rp.distance_to(rq, B, False)) - d) <= tol
                     last_kind = 'B' if rng.random() < 0.5 else 'I'
                     d_last = float(rp.distance_to(rq, B)) if last_kind == 'B' else float(rp.distance_to(rq, Ibuf, inv=True))
                     okp &= abs(d_first - d) <= tol and abs(d_last - d) <= tol
